@@ -224,6 +224,54 @@ example : ∃ (p : PingPong) (u : UserPings), p.userPings = some u ∧
     u.state = Generated.Consts.USER_STATE_PENDING_PONG ∧ p.pendingPing = none :=
   ⟨{ userPings := some { state := Generated.Consts.USER_STATE_PENDING_PONG } }, _, rfl, rfl, rfl⟩
 
+-- ===================================================================== witnesses for the two hypotheses the ledgers carry
+
+/-- the demo client after its SETTINGS exchange -/
+def demoSynced : Conn :=
+  let c0 := Conn.init {}
+  (Conn.clientPoll 50 { c0 with codec := { c0.codec with io := { c0.codec.io with rd := [0,0,0,4,0,0,0,0,0] } } }).1
+
+/-- … holding (set by hand: sending a request needs `http` string constants the kernel cannot
+    evaluate) an open stream 1 whose send window the peer has raised to 2^31-1, and a SETTINGS frame
+    that raises INITIAL_WINDOW_SIZE by one — legal, and unanswerable without overflow -/
+def demoOverflow : Conn :=
+  let st := Stream.new 1 65535 65535
+  let fl : FlowControl := { windowSize := { val := 2147483647 }, available := { val := 0 } }
+  let big : Stream := { st with state := { inner := .open .streaming .awaitingHeaders }, sendFlow := fl, isCounted := true, refCount := 1 }
+  let s := demoSynced.streams
+  let cnt : Counts := { s.counts with numSendStreams := 1 }
+  let s' : Streams := { s with store := (s.store.insert big).1, counts := cnt }
+  let io : Tio := { demoSynced.codec.io with rd := [0,0,6,4,0,0,0,0,0, 0,4,0,1,0,0], tx := [] }
+  { demoSynced with streams := s', codec := { demoSynced.codec with io := io } }
+
+/-- **why `ackS ++ owed = rxS` is stated for live connections only**: when `apply_remote_settings`
+    fails (here: the new initial window overflows a stream's send window — connection error
+    FLOW_CONTROL_ERROR) the ACK has already been handed to the codec and `settings.remote` is NOT
+    cleared: one frame received, one ACK sent, and the same frame still "owed".  No second ACK can
+    follow: the connection is dead (GOAWAY(FLOW_CONTROL_ERROR) sent, state `Closed`), which is why the
+    prefix statement of `settings_acked_exactly_once_in_order` holds unconditionally. -/
+theorem stale_remote_after_failed_apply_counterexample :
+    rxS (clientPollT 50 demoOverflow).2 = [[(4, 65536)]] ∧ ackS (clientPollT 50 demoOverflow).2 = [[(4, 65536)]] ∧
+    owedS (clientPollT 50 demoOverflow).1.1 = [[(4, 65536)]] ∧
+    (sentG (clientPollT 50 demoOverflow).2).map (·.reason) = [FLOW_CONTROL_ERROR] ∧
+    (clientPollT 50 demoOverflow).1.1.state = .closed FLOW_CONTROL_ERROR .library := by decide
+
+/-- the demo client with a PING to answer, a full write buffer and a transport whose writes fail -/
+def demoBrokenPipe : Conn :=
+  let io : Tio := { demoSynced.codec.io with rd := [0,0,8,6,0,0,0,0,0, 1,2,3,4,5,6,7,8], wrErr := some "BrokenPipe" }
+  let w0 := demoSynced.codec.w
+  let w : Writer := { w0 with buf := w0.buf ++ [{ bytes := 16000, done := none }], bufLen := w0.bufLen + 16000 }
+  { demoSynced with codec := { demoSynced.codec with io := io, w := w } }
+
+/-- **why `pongP = ansP` needs "no `pongLost`"**: `send_pending_pong` takes the payload out of
+    `pending_pong` before `poll_ready?`; when the transport answers an I/O error at that moment the
+    PING is never answered and no longer pending (the error is returned by `poll`: the connection is
+    dying anyway). -/
+theorem pong_lost_on_write_error_counterexample :
+    (clientPollT 50 demoBrokenPipe).2 = [.rxPing [1,2,3,4,5,6,7,8], .pongLost [1,2,3,4,5,6,7,8]] ∧
+    pongP (clientPollT 50 demoBrokenPipe).2 = [] ∧ (clientPollT 50 demoBrokenPipe).1.1.pingPong.pendingPong = none := by
+  decide
+
 end H2V.Props.C14
 
 #print axioms H2V.Props.C14.protoPollT_erasure
@@ -241,3 +289,5 @@ end H2V.Props.C14
 #print axioms H2V.Props.C14.pong_echoes_payload
 #print axioms H2V.Props.C14.unsolicited_ping_ack_ignored
 #print axioms H2V.Props.C14.user_ping_ack_delivered
+#print axioms H2V.Props.C14.stale_remote_after_failed_apply_counterexample
+#print axioms H2V.Props.C14.pong_lost_on_write_error_counterexample
